@@ -6,7 +6,6 @@ From V Require Export Proofs.Date Proofs.Gregorian.
 Import ListNotations.
 Open Scope Z_scope.
 Ltac Zify.zify_post_hook ::= Z.to_euclidean_division_equations.
-Set Default Timeout 300.
 
 (** * The three year-flag functions, by enumeration of the 16 flag values *)
 Definition yfun_ok (f : Z) : bool :=
